@@ -41,13 +41,9 @@ Record prims (T : Type) := {
   rt : T -> T;                              (* square root *)
   afun : nat -> list T -> list T;           (* abstract (user-defined) nonlinear leaves ... *)
   ader : nat -> list T -> list T -> list T; (* ... and what their .derivative(x) computes *)
-  adom : nat -> space; aran : nat -> space;
-  (* variant switch (measured on the code at run time): what OperatorRightScalarMult.derivative
-     builds -- false: scalar * op'(scalar x) (OperatorLeftScalarMult, the current source);
-     true: OperatorRightScalarMult(op'(scalar x), scalar), the proposed repair for complex scalars *)
-  rsv : bool }.
+  adom : nat -> space; aran : nat -> space }.
 Arguments tr {T}. Arguments rt {T}. Arguments afun {T}. Arguments ader {T}.
-Arguments adom {T}. Arguments aran {T}. Arguments rsv {T}.
+Arguments adom {T}. Arguments aran {T}.
 
 Section Model.
 Context {T : Type} `{Num T}.
@@ -338,9 +334,6 @@ Fixpoint eval (e : oexpr) (x : list T) : list T :=
    a nested OperatorLeftScalarMult:  scalar = s * op.scalar ; operator = op.operator *)
 Definition mk_lscal (s : T) (e : oexpr) : oexpr :=
   match e with OLScal a s' => OLScal a (s * s') | _ => OLScal e s end.
-(* OperatorRightScalarMult.__init__ merges a nested OperatorRightScalarMult the same way *)
-Definition mk_rscal (s : T) (e : oexpr) : oexpr :=
-  match e with ORScal a s' => ORScal a (s * s') | _ => ORScal e s end.
 (* y * op for y = other(x) in op.range: a Number when the range is the field
    (-> OperatorLeftScalarMult), an element otherwise (-> OperatorLeftVectorMult) *)
 Definition mk_lmul (r : space) (y : list T) (e : oexpr) : oexpr :=
@@ -388,8 +381,9 @@ Fixpoint derivative (e : oexpr) (x : list T) : oexpr :=
   | OPProd a b =>
       OSum (mk_lmul (ran a) (eval b x) (derivative a x)) (mk_lmul (ran a) (eval a x) (derivative b x))
   | OLScal a s => if is_lin a then e else mk_lscal s (derivative a x)
-  | ORScal a s =>
-      if rsv P then mk_rscal s (derivative a (vscal s x)) else mk_lscal s (derivative a (vscal s x))
+  (* op'(s x) * s : the derivative object is linear, so Operator.__mul__(Number) rewrites it to
+     s * op'(s x), i.e. OperatorLeftScalarMult (with its merging) *)
+  | ORScal a s => mk_lscal s (derivative a (vscal s x))
   | OLVec a v => if is_lin a then e else OLVec (derivative a x) v
   | ORVec a v => if is_lin a then e else ORVec (derivative a (vmul v x)) v
   | OFLVec a v => if is_lin a then e else OFLVec (derivative a x) v
